@@ -241,7 +241,7 @@ pub fn strategy() -> BoxedStrategy<Case> {
             if prob.blocks.len() > 2 { prob.blocks.truncate(2); }
             Case::Slope { prob, x0, back, method }
         }),
-        2 => (prob_spec(5, 0.5, 8.0), span_mid(), any_method(), log10(-9.0, -3.0), log10(-3.0, 0.0), fr(20.3, 200.9), proptest::collection::vec(fr(0.02, 0.98), 1..5), any::<bool>(), proptest::option::weighted(0.2, fr(0.2, 0.95)))
+        2 => (prob_spec(5, 0.5, 8.0), prop_oneof![12 => span_mid().boxed(), 1 => span_tiny().boxed()], any_method(), log10(-9.0, -3.0), log10(-3.0, 0.0), fr(20.3, 200.9), proptest::collection::vec(fr(0.02, 0.98), 1..5), any::<bool>(), proptest::option::weighted(0.2, fr(0.2, 0.95)))
             .prop_map(|(prob, span, method, rtol, atol_rel, rk4_steps, thetas, analytic_jac, terminal_at)| Case::Full { prob, span, method, rtol, atol_rel, rk4_steps, thetas, analytic_jac, terminal_at }),
     ]
     .boxed()
